@@ -29,7 +29,8 @@ BASE_CFLAGS = ["-std=c99", "-DNDEBUG", "-DREPROC_MULTITHREADED",
 
 CBMC_FLAGS = ["--no-malloc-may-fail", "--drop-unused-functions",
               "--unwinding-assertions", "--signed-overflow-check",
-              "--undefined-shift-check", "--conversion-check", "--json-ui"]
+              "--undefined-shift-check", "--json-ui",
+              "--verbosity", "8"]
 
 
 class Inconclusive(Exception):
@@ -86,7 +87,7 @@ class Job:
     def __init__(self, harness, variant="", defines=None, unwind=4, unwindset=None,
                  model=True, shim=True, extra_src=None, timeout=900, mem_gb=24,
                  entry="harness", cflags=None, cbmc_flags=None, prepare=None,
-                 bounds=None, no_repo_include=False):
+                 bounds=None, no_repo_include=False, loop_rules=None, params=None):
         self.harness = harness
         self.variant = variant
         self.defines = dict(defines or {})
@@ -103,6 +104,9 @@ class Job:
         self.prepare = prepare  # callable(workdir) -> extra cflags (e.g. scaled source copy)
         self.bounds = dict(bounds or {})
         self.no_repo_include = no_repo_include
+        self.loop_rules = list(loop_rules or [])
+        self.params = dict(params or {})
+        self.auto_unwindset = []
 
     @property
     def name(self):
@@ -168,11 +172,78 @@ def reachable_functions(goto, entry):
     return seen
 
 
+_SRC_CACHE = {}
+
+
+def _src_window(path, line, before=1, after=1):
+    if path not in _SRC_CACHE:
+        try:
+            _SRC_CACHE[path] = open(path, errors="replace").read().splitlines()
+        except OSError:
+            _SRC_CACHE[path] = []
+    L = _SRC_CACHE[path]
+    lo, hi = max(0, line - 1 - before), min(len(L), line + after)
+    return " ".join(L[lo:hi])
+
+
+def compute_unwindset(job, goto):
+    """Per-loop bounds keyed on the *source text* of each loop (robust against loop
+    renumbering when the repository changes). Returns (list, table for evidence)."""
+    rc, so, se, _ = sh(["goto-instrument", "--show-loops", "--json-ui", goto], timeout=300)
+    try:
+        data = json.loads(so)
+    except ValueError:
+        raise Inconclusive("cannot list loops: " + se[-500:])
+    loops = []
+    for it in data:
+        if isinstance(it, dict) and "loops" in it:
+            loops = it["loops"]
+    rules = list(job.loop_rules) + DEFAULT_LOOP_RULES
+    out, table = [], []
+    for lp in loops:
+        name = lp.get("name")
+        loc = lp.get("sourceLocation", {})
+        f, fn = loc.get("file", ""), loc.get("function", "")
+        try:
+            ln = int(loc.get("line", "0"))
+        except ValueError:
+            ln = 0
+        text = fn + " :: " + (_src_window(f, ln) if f and not f.startswith("<") else f)
+        bound = None
+        for rx, b in rules:
+            if re.search(rx, text):
+                bound = b(job) if callable(b) else b
+                break
+        if bound is None:
+            continue
+        out.append("%s:%d" % (name, bound))
+        table.append({"loop": name, "bound": bound, "where": "%s:%d" % (os.path.basename(f), ln)})
+    return out, table
+
+
+# (regex on "function :: source text around the loop", bound or callable(job))
+DEFAULT_LOOP_RULES = [
+    (r"signal < 32", 33),
+    (r"errno == EINTR", lambda j: j.params.get("retry", 3)),
+    (r"max_fd", lambda j: j.params.get("nfd", 18) + 2),
+    (r"getcwd\(", lambda j: j.params.get("cwd_growths", 1) + 2),
+    (r"written < size", lambda j: j.params.get("input_max", 3) + 2),
+    (r"STRV_FOREACH", lambda j: j.params.get("strv_max", 3) + 2),
+    (r"^fd_in_set ", 7),
+    (r"ARRAY_SIZE\((redirect|actions)\)", 4),
+    (r"^(strlen|strcpy|strchr|strcmp|strncmp|memcpy|memset|memmove|wcslen|wcscpy|wcschr) ",
+     lambda j: j.params.get("str_max", 8) + 2),
+    (r"<builtin-library", lambda j: j.params.get("str_max", 8) + 2),
+    (r"while \(0\)|do \{", 2),
+]
+
+
 def cbmc_cmd(job, goto, extra=None):
     cmd = ["cbmc", goto, "--function", job.entry] + CBMC_FLAGS
     cmd += ["--unwind", str(job.unwind)]
-    if job.unwindset:
-        cmd += ["--unwindset", ",".join(job.unwindset)]
+    us = list(job.unwindset) + list(getattr(job, "auto_unwindset", []))
+    if us:
+        cmd += ["--unwindset", ",".join(us)]
     cmd += job.cbmc_flags
     cmd += list(extra or [])
     return cmd
@@ -202,7 +273,7 @@ def solver_stats(messages):
         if mm:
             st["sat_variables"] = max(st["sat_variables"], int(mm.group(1)))
             st["sat_clauses"] = max(st["sat_clauses"], int(mm.group(2)))
-        mm = re.search(r"Runtime (?:decision procedure|Solver): ([\d.]+)s", m)
+        mm = re.search(r"Runtime decision procedure: ([\d.]+)s", m)
         if mm:
             st["solver_s"] += float(mm.group(1))
         mm = re.search(r"size of program expression: (\d+) steps", m)
@@ -231,13 +302,49 @@ def classify(r, prop):
 
 
 def extract_choices(trace):
+    """Choice vector in call order. One slot per call of vp_choice (goto-cc may rename the
+    per-TU copies of the inline function to vp_choice$linkN). The value is the function's
+    return value; if the solver's slice dropped it (the value is irrelevant to the
+    failure) the last value of `v`, or else the lower bound `lo`, fills the slot so that
+    later choices keep their positions."""
     ch = []
+    cur = None
     for s in trace:
-        if s.get("stepType") == "assignment" and \
-                s.get("lhs", "") == "goto_symex$$return_value$$vp_choice":
-            v = s.get("value", {})
-            ch.append(int(v.get("data")))
-    return ch
+        st = s.get("stepType")
+        if st == "function-call":
+            name = (s.get("function") or {}).get("displayName", "")
+            if name.split("$")[0] == "vp_choice":
+                if cur is not None:
+                    ch.append(cur)
+                cur = {"lo": 0, "v": None, "ret": None}
+            continue
+        if st == "function-return":
+            name = (s.get("function") or {}).get("displayName", "")
+            if name.split("$")[0] == "vp_choice" and cur is not None:
+                ch.append(cur)
+                cur = None
+            continue
+        if st != "assignment" or cur is None:
+            continue
+        lhs = s.get("lhs", "")
+        fn = (s.get("sourceLocation") or {}).get("function", "")
+        try:
+            val = int((s.get("value") or {}).get("data"))
+        except (TypeError, ValueError):
+            continue
+        base = lhs.split("$link")[0]
+        if base == "goto_symex$$return_value$$vp_choice":
+            cur["ret"] = val
+        elif fn.split("$")[0] == "vp_choice" and base == "v":
+            cur["v"] = val
+        elif base == "lo" and s.get("assignmentType") == "actual-parameter":
+            cur["lo"] = val
+    if cur is not None:
+        ch.append(cur)
+    out = []
+    for c in ch:
+        out.append(c["ret"] if c["ret"] is not None else c["v"] if c["v"] is not None else c["lo"])
+    return out
 
 
 def native_build(job, prop, workdir, sanitize=True):
@@ -312,6 +419,8 @@ def run_job(prop, job, run_dir, want_functions=True):
             reach = reachable_functions(goto, job.entry)
             rf = repo_functions()
             info["functions"] = sorted(f for f in reach if f in rf)
+        job.auto_unwindset, loop_table = compute_unwindset(job, goto)
+        info["bounds"]["loops"] = loop_table
         cmd = cbmc_cmd(job, goto)
         rc, so, se, wall = sh(cmd, timeout=job.timeout, mem_gb=job.mem_gb)
         info["cbmc_cmd"] = " ".join(cmd[:1] + ["<goto>"] + cmd[2:])
